@@ -18,6 +18,8 @@ pub enum Site {
     ElemEnter,
     ElemExit,
     Req,
+    RngDraw,
+    AttrEval,
 }
 
 impl Site {
@@ -29,6 +31,8 @@ impl Site {
             Site::ElemEnter => 3,
             Site::ElemExit => 4,
             Site::Req => 5,
+            Site::RngDraw => 6,
+            Site::AttrEval => 7,
         }
     }
 }
